@@ -1,4 +1,5 @@
-CONSTANT PollutedDedup = FALSE
+CONSTANTS PollutedDedup = FALSE
+ BadCallsExempt = FALSE
 SPECIFICATION TSpec
 INVARIANT Report
 CHECK_DEADLOCK FALSE
